@@ -604,7 +604,7 @@ func init() {
 		ID:          "C10",
 		Level:       "exploration",
 		CaseTimeout: 15 * time.Minute,
-		Rule:        "part interactive: histories of 5-20 lines mixing 45 report commands (with focus/ignore arguments, node counts, -cum, >file, mutating reports: hide/show/show_from/prune_from/tagroot/tagleaf/granularity/noinlines/callgrind/tags/list/weblist/disasm) and 84 option assignments (incl. shortcuts and ':'), run in one fresh child process with per-line transcripts (stdout, UI prints, UI errors, files written or changed - captured by a Writer plug-in or, for every other history, written by pprof itself into the session directory); for EVERY command the same command is run in another fresh process that only replays the assignments preceding it, and the transcripts must be byte-equal (temporary-file counters normalised, saved profiles compared by content). part disasm: histories of disasm / weblist commands and intel_syntax / unit assignments over a real binary (the repository's exe_linux_64) through pprof's own binutils wrapper with the installed objdump and nm, compared the same way. part web: request histories over /top / /peek /flamegraph /source /disasm /download with query configs, sequential or from 2-6 concurrent clients against one server; every response must equal the response to the same request sent first to a fresh server. The very *profile.Profile object handed to pprof is fingerprinted after every command/request and must never change. non-trivial = every case; distinct = case",
+		Rule:        "part interactive: histories of 5-20 lines mixing 45 report commands (with focus/ignore arguments, node counts, -cum, >file, mutating reports: hide/show/show_from/prune_from/tagroot/tagleaf/granularity/noinlines/callgrind/tags/list/weblist/disasm) and 84 option assignments (incl. shortcuts and ':'), run in one fresh child process with per-line transcripts (stdout, UI prints, UI errors, files written or changed - captured by a Writer plug-in or, for every other history, written by pprof itself into the session directory); for EVERY command the same command is run in another fresh process that only replays the assignments preceding it, and the transcripts must be byte-equal (temporary-file counters normalised, saved profiles compared by content). part disasm: histories of disasm / weblist commands and intel_syntax / unit assignments over a real binary (the repository's exe_linux_64) through pprof's own binutils wrapper with the installed objdump and nm, compared the same way. part web: request histories over /top / /peek /flamegraph /source /disasm /download with query configs, sequential or from 2-6 concurrent clients against one server; every response must equal the response to the same request sent first to a fresh server. The very *profile.Profile object handed to pprof is fingerprinted after every command/request and must never change. part firstcmd: the first command of a fresh session prints what the one-shot report of the same options prints. part order: the same option values reached by assignments in two different orders (and through set-and-reset detours) give byte-equal reports. part viewers: sessions with a launcher-style viewer on PATH (it snapshots the file it is handed and exits at once) and 1.3 s between lines: when a later visualizing command starts its viewer, every file handed out before still holds what its viewer was shown. Web histories also run over profiles with sample types of two unit families (bytes and time). non-trivial = every case; distinct = case",
 		Assumptions: []string{"the only state a command may depend on is the sequence of option assignments before it", "saveconfig/deleteconfig are excluded here (C19)"},
 		Parts: []harness.Part{
 			{Name: "interactive", Quick: 500, Thor: 10000, Run: runInteractive},
